@@ -39,6 +39,8 @@ def main():
         d = os.path.join(VERIF, "seeded", sid)
         meta = json.load(open(os.path.join(d, "meta.json")))
         prop = meta["property"]
+        if meta.get("obsolete"):
+            rows.append((sid, prop, "obsolete (property-equivalent on the repaired tree)", meta["obsolete"][:120], 0)); continue
         ap = sh(["git", "-C", REPO, "apply", os.path.join(d, "patch.diff")])
         if ap.returncode != 0:
             rows.append((sid, prop, "patch does not apply", "", 0)); continue
